@@ -127,3 +127,9 @@ CHECKS.update({
     "C23": ("6/C23", "All pairs of step configs (1-2 accepted x 0-2 returned types) over an 8-class (quick) / 10-class (thorough) event alphabet; every pair with sound connectivity re-validated under all 8 workflow-level skip sets x 4x4 step-level skip lists; all triples over a 5-class alphabet (thorough); 1-2 @catch_error handlers over 10 for_steps layouts x 8 budgets x both discovery orders and positions; all pairs over the 5-class alphabet also through generated Workflow classes and the public Workflow.validate(); accept/reject and the HITL flag compared with an independent restatement of the stated rules (2.8M graphs quick).",
             "Step configs are built as StepConfig objects and fed to _validate_workflow (the function Workflow.validate calls); the 5-class subset binds that to the public API. Fix recorded for the exact-class HITL flag this check found.", ENUM_TECH),
 })
+
+BFS_TECH = "explicit-state breadth-first search: every transition calls the real implementation with one operation, states are deduplicated on a canonical form of the durable state plus the monitor's ghost state, and the invariant is evaluated in every reachable state"
+CHECKS.update({
+    "C37": ("6/C37", "Breadth-first search over sequences (depth <=5 quick / <=6 thorough) of 19 llamactl configuration operations {add / switch / delete environment x 3 URLs incl. the built-in default; create profile from token (unnamed / keyed) and from OIDC login - the same names recur in every environment; select by name; select-any; update; delete profile} executed through EnvService / AuthService on a real ConfigManager SQLite file; states deduplicated on all table contents + the ghost set of profiles picked since the current environment became current; the invariant is evaluated in every reachable state (~10^4 states quick).",
+            "Network clients (jwt / cryptography / truststore absent) are inert stand-ins; they are not reached. Fix recorded for the stale profile pointer after deleting the current environment.", BFS_TECH),
+})
